@@ -128,6 +128,15 @@ func bumpStr(q *uint64) string {
 	return "odd"
 }
 
+type FnHolder struct {
+	fn func(*uint64) uint64
+}
+
+func (h *H) tick(q *uint64) uint64 {
+	*q = *q + 1
+	return *q + h.f%2
+}
+
 type Dev struct {
 	Size  uint64
 	Read  uint64
@@ -300,6 +309,24 @@ func effectOnceAtoms() []OutsideAtom {
 	add("call_stmt", "bump(q)")
 	add("call_stmt_arg", "sideEffect(q, bump(q))")
 	add("go_free", "x += bump(q) + bump32Pure(3)")
+	// the counting callee reached in other ways than a declared function: closure, function-typed
+	// parameter-like local, method, method value, function-typed field
+	callees := []struct{ id, pre, call string }{
+		{"closure", "bc := func() uint64 {\n\t\t*q = *q + 1\n\t\treturn *q\n\t}\n\t", "bc()"},
+		{"funcvalue", "var bf func(*uint64) uint64 = bump\n\t", "bf(q)"},
+		{"method", "", "p.tick(q)"},
+		{"methodvalue", "bm := p.tick\n\t", "bm(q)"},
+		{"funcfield", "fh := &FnHolder{fn: bump}\n\t", "fh.fn(q)"},
+	}
+	for _, c := range callees {
+		add("callee_"+c.id+"_index_opassign", c.pre+"s["+c.call+"%3] += 5")
+		add("callee_"+c.id+"_map_opassign", c.pre+"m["+c.call+"%2] ^= 5")
+		add("callee_"+c.id+"_index_read", c.pre+"x += s["+c.call+"%3]")
+		add("callee_"+c.id+"_slice_chain", c.pre+"t := s["+c.call+"%2:][:2]\n\tx += t[0] + uint64(len(t))")
+		add("callee_"+c.id+"_opassign_rhs", c.pre+"x += "+c.call)
+		add("callee_"+c.id+"_cond", c.pre+"if "+c.call+"%2 == 0 {\n\t\tx += 7\n\t}")
+		add("callee_"+c.id+"_for_cond", c.pre+"for i := uint64(0); i < "+c.call+"%4; i++ {\n\t\tx += 1\n\t}")
+	}
 	return out
 }
 
@@ -389,7 +416,7 @@ func ifInitAtoms() []OutsideAtom {
 
 // likeNames: identifiers that are also library package names (Go side), GooseLang module or
 // notation names (Coq side), or predeclared Go identifiers that a declaration may shadow.
-var likeNames = []string{"disk", "filesys", "machine", "sync", "primitive", "async_disk", "grove_ffi", "log", "fmt", "std",
+var likeNames = []string{"uint32", "uint8", "int", "uint", "disk", "filesys", "machine", "sync", "primitive", "async_disk", "grove_ffi", "log", "fmt", "std",
 	"lock", "slice", "waitgroup", "prelude", "FS", "util", "proph", "control", "string", "uint64", "byte", "len", "cap", "append", "new", "true", "false", "nil"}
 
 func namedLikeAtoms() []OutsideAtom {
@@ -417,6 +444,14 @@ func namedLikeAtoms() []OutsideAtom {
 		addDecl("param_field_read", "func ID_h(NAME *Dev) uint64 {\n\treturn NAME.Size + NAME.Read*3 + NAME.Barrier(1)\n}\n\ntype Dev struct {\n\tSize uint64\n\tRead uint64\n}\n\nfunc (d *Dev) Barrier(v uint64) uint64 {\n\td.Size = d.Size + v\n\treturn d.Size\n}\n\nfunc ID_fn(a uint64) uint64 {\n\treturn ID_h(&Dev{Size: a, Read: 2})\n}")
 		addDecl("receiver", "type ID_t struct {\n\tSize uint64\n\tRead uint64\n}\n\nfunc (NAME *ID_t) get(v uint64) uint64 {\n\tNAME.Size = NAME.Size + v\n\treturn NAME.Size + NAME.Read\n}\n\nfunc ID_fn(a uint64) uint64 {\n\tt := &ID_t{Size: a, Read: 3}\n\treturn t.get(2)\n}")
 		addDecl("struct_field_name", "type ID_t struct {\n\tNAME uint64\n\tother *ID_u\n}\n\ntype ID_u struct {\n\tNAME uint64\n}\n\nfunc ID_fn(a uint64) uint64 {\n\tt := &ID_t{NAME: a, other: &ID_u{NAME: 4}}\n\tt.NAME = t.NAME + 1\n\treturn t.NAME + t.other.NAME\n}")
+		if n == "uint32" || n == "uint8" || n == "int" || n == "uint" {
+			// the seeded shape: a WIDER type under the name of a narrower predeclared one
+			addDecl("wider_type_conversion", "type NAME uint64\n\nfunc ID_keep(v uint64) NAME {\n\treturn NAME(v)\n}\n\nfunc ID_fn(a uint64) uint64 {\n\tr := ID_keep(4294967296 + a%7)\n\tif r > 4294967295 {\n\t\treturn 1\n\t}\n\treturn 2\n}")
+		}
+		if n == "uint64" || n == "byte" || n == "string" || n == "len" || n == "cap" || n == "new" || n == "append" {
+			// a numeric type of another width under the predeclared (or builtin) name, used as a conversion
+			addDecl("numeric_type_conversion", "type NAME uint32\n\nfunc ID_h(v uint32) NAME {\n\treturn NAME(v) + 1\n}\n\nfunc ID_fn(a uint64) uint64 {\n\tr := ID_h(4294967295)\n\tif r == 0 {\n\t\treturn a + 1\n\t}\n\treturn a + 2\n}")
+		}
 		addDecl("global", "var NAME uint64 = 7\n\nfunc ID_fn(a uint64) uint64 {\n\treturn a + NAME\n}")
 		addDecl("func", "func NAME(v uint64) uint64 {\n\treturn v + 9\n}\n\nfunc ID_fn(a uint64) uint64 {\n\treturn NAME(a)\n}")
 		addDecl("type", "type NAME struct {\n\tSize uint64\n}\n\nfunc (d *NAME) Read(v uint64) uint64 {\n\treturn d.Size + v\n}\n\nfunc ID_fn(a uint64) uint64 {\n\td := &NAME{Size: a}\n\treturn d.Read(2)\n}")
@@ -676,6 +711,12 @@ func rejectedConstructFamilies() []OutsideAtom {
 	add("slice_of_array", "var a1 [4]uint64\n\ta1[1] = x\n\tt := a1[1:3]\n\tt[0] = t[0] + 1\n\tx += a1[1] + uint64(len(t))", false)
 	// --- range forms
 	add("range_int_var", "n9 := 3\n\tfor i := range n9 {\n\t\tx += uint64(i)\n\t}", false)
+	add("range_int_bound_var_modified", "var n9 uint64 = 4\n\tfor i := range n9 {\n\t\tn9 = n9 - 1\n\t\tx += i + 1\n\t}\n\tx += n9", false)
+	add("range_int_bound_deref_modified", "*q = 3\n\tfor range *q {\n\t\t*q = *q + 1\n\t\tx += 1\n\t}", false)
+	add("range_int_loopvar_assigned", "for i := range uint64(4) {\n\t\tx += i\n\t\ti = i + 2\n\t\tx += i\n\t}", false)
+	add("range_int_param", "for i := range a % 4 {\n\t\tx += i\n\t}", false)
+	add("range_int_no_var", "for range 3 {\n\t\tx += 2\n\t}", false)
+	add("range_int_field_bound", "p.f = 3\n\tfor i := range p.f {\n\t\tp.f = 1\n\t\tx += i + 1\n\t}", false)
 	add("range_string_index", "for i := range str {\n\t\tx += uint64(i)\n\t}", false)
 	add("range_modifies_slice_var", "var t []uint64\n\tt = append(t, 1)\n\tt = append(t, 2)\n\tfor _, v := range t {\n\t\tif v == 1 {\n\t\t\tt = append(t, 9)\n\t\t}\n\t\tx += v\n\t}\n\tx += uint64(len(t))", false)
 	add("range_value_is_copy", "hs := make([]H, 2)\n\tfor _, hv := range hs {\n\t\thv.f = 9\n\t\tx += hv.f\n\t}\n\tx += hs[0].f", false)
@@ -739,6 +780,13 @@ func rejectedConstructFamilies() []OutsideAtom {
 	addDecl("anon_iface_result", "func ID_h(a uint64) interface{} {\n\treturn a\n}\n\nfunc ID_fn(a uint64) uint64 {\n\tv := ID_h(a)\n\tif v == nil {\n\t\treturn 0\n\t}\n\treturn a + 1\n}")
 	addDecl("anon_iface_named_type", "type ID_any interface{}\n\nfunc ID_h(x ID_any, a uint64) uint64 {\n\treturn a + 1\n}\n\nfunc ID_fn(a uint64) uint64 {\n\treturn ID_h(a, a)\n}")
 	addDecl("anon_iface_var_assign", "func ID_fn(a uint64) uint64 {\n\tvar x interface{}\n\tx = a\n\tif x != nil {\n\t\treturn a + 1\n\t}\n\treturn 0\n}")
+	// --- type assertions and type switches on a named interface value
+	ipre := "type ID_i interface {\n\tget() uint64\n}\n\ntype ID_s struct {\n\tv uint64\n}\n\nfunc (s *ID_s) get() uint64 {\n\treturn s.v\n}\n\ntype ID_t struct {\n\tw uint64\n}\n\nfunc (t ID_t) get() uint64 {\n\treturn t.w * 2\n}\n\n"
+	addDecl("typeassert_pointer", ipre+"func ID_h(i ID_i) uint64 {\n\tp := i.(*ID_s)\n\treturn p.v + 1\n}\n\nfunc ID_fn(a uint64) uint64 {\n\treturn ID_h(&ID_s{v: a})\n}")
+	addDecl("typeassert_pointer_commaok", ipre+"func ID_h(i ID_i) uint64 {\n\tp, ok := i.(*ID_s)\n\tif ok {\n\t\treturn p.v + 1\n\t}\n\treturn 0\n}\n\nfunc ID_fn(a uint64) uint64 {\n\treturn ID_h(&ID_s{v: a}) + ID_h(ID_t{w: a})\n}")
+	addDecl("typeassert_struct_value", ipre+"func ID_h(i ID_i) uint64 {\n\tt := i.(ID_t)\n\treturn t.w + 1\n}\n\nfunc ID_fn(a uint64) uint64 {\n\treturn ID_h(ID_t{w: a})\n}")
+	addDecl("typeassert_to_interface", ipre+"type ID_j interface {\n\tget() uint64\n}\n\nfunc ID_h(i ID_i) uint64 {\n\tj := i.(ID_j)\n\treturn j.get() + 1\n}\n\nfunc ID_fn(a uint64) uint64 {\n\treturn ID_h(ID_t{w: a})\n}")
+	addDecl("typeswitch_pointer_cases", ipre+"func ID_h(i ID_i) uint64 {\n\tswitch v := i.(type) {\n\tcase *ID_s:\n\t\treturn v.v + 1\n\tcase ID_t:\n\t\treturn v.w + 2\n\t}\n\treturn 0\n}\n\nfunc ID_fn(a uint64) uint64 {\n\treturn ID_h(&ID_s{v: a})*10 + ID_h(ID_t{w: a})\n}")
 	// --- min / max / clear builtins
 	add("max_builtin", "x = max(x, 3, y)", false)
 	add("clear_map_builtin", "clear(m)\n\tx += uint64(len(m))", false)
